@@ -46,7 +46,7 @@ func main() {
 	case "bounded":
 		e := load()
 		rs := e.labelRun([]int{4, 6, 8, 10, 12})
-		rs = append(rs, e.diffRun([]int{4, 6}, 1)...)
+		rs = e.refRun([]int{4, 6}, 1)
 		for _, r := range rs {
 			fmt.Printf("%+v\n", r)
 		}
